@@ -14,7 +14,8 @@ EXPLANATION = ("(greg-map) in CrashContext::fill_cpu_context every general regis
                "payload of crashing_thread_context, and without a crash context the code is DUMP_REQUESTED with the stored address; "
                "(same-context) in the blamed-thread branch of the thread list the thread's context location and the location stored in "
                "crashing_thread_context are the same written section, filled from crash_context.fill_cpu_context resp. the same ThreadInfo whose "
-               "instruction pointer is stored; (branch-select) the crash-context branch is taken iff crash_context is Some and thread_id == blamed_thread.")
+               "instruction pointer is stored; (branch-select) the crash-context branch is taken iff crash_context is Some and thread_id == blamed_thread; "
+               "(lane-copy) the st/xmm word-to-u128 helper shared with the ptrace path preserves every 32-bit lane (C04/lane-copy).")
 TRUSTED = ["tables/abi_x86_64.json", "crash-context crate layout of CrashContext"]
 ASSUMPTIONS = ["ds/es/ss are not part of the Linux ucontext and are left zero by design"]
 
@@ -296,3 +297,6 @@ def run(ctx):
     rule_exception_record(ctx)
     rule_same_context(ctx)
     rule_branch_select(ctx)
+    # the u32-word -> u128-slot helper shared with the ptrace path (C04/lane-copy)
+    from rules import c04
+    c04.rule_lane_copy(ctx, R="C05/lane-copy")
